@@ -324,6 +324,50 @@ def prune_unreachable(X):
     return X
 
 
+CONST_GLOBALS = {'@__libc_single_threaded': 0}    # the encoded program is multi-threaded: libstdc++ takes the atomic paths
+
+
+def fold_constants(M, X):
+    """Tiny constant folder: loads of CONST_GLOBALS, icmp / and / zext / trunc / select of constants, conditional branches on
+    constants.  Removes the single-threaded fast paths libstdc++ compiles into every shared_ptr operation."""
+    const = {}
+    def cv(v):
+        if v is None: return None
+        if v[0] == 'int': return v[1]
+        if v[0] == 'reg' and v[1] in const: return const[v[1]]
+        return None
+    changed = True
+    while changed:
+        changed = False
+        for b, il in X.blocks.items():
+            for i in il:
+                if not i.dst or i.dst in const: continue
+                val = None
+                if i.op == 'load' and i.a[0][0] == 'glob' and i.a[0][1] in CONST_GLOBALS: val = CONST_GLOBALS[i.a[0][1]]
+                elif i.op == 'icmp':
+                    a, c = cv(i.a[2]), cv(i.a[3])
+                    if a is not None and c is not None and i.a[0] in ('eq', 'ne'): val = int((a == c) == (i.a[0] == 'eq'))
+                elif i.op == 'cast' and i.a[0] in ('zext', 'trunc') and cv(i.a[2]) is not None:
+                    val = cv(i.a[2]) & ((1 << M.resolve(i.ty).n) - 1)
+                elif i.op == 'bin' and i.a[0] in ('and', 'or', 'xor') and cv(i.a[1]) is not None and cv(i.a[2]) is not None:
+                    x, y = cv(i.a[1]), cv(i.a[2])
+                    val = {'and': x & y, 'or': x | y, 'xor': x ^ y}[i.a[0]]
+                elif i.op in ('copy', 'freeze') and cv(i.a[0]) is not None and len([1 for bb in X.blocks.values() for j in bb if j.dst == i.dst]) == 1:
+                    val = cv(i.a[0])
+                if val is not None:
+                    const[i.dst] = val; changed = True
+    n = 0
+    for b, il in X.blocks.items():
+        for k, i in enumerate(il):
+            if i.op == 'br' and i.a[0] is not None and cv(i.a[0]) is not None:
+                tgt = i.a[1] if cv(i.a[0]) else i.a[2]
+                ni = Ins(None, 'br', i.ty, (None, tgt, None), i.raw); ni.attrs = dict(i.attrs)
+                il[k] = ni; n += 1
+            elif i.op == 'load' and i.dst in const and i.a[0][0] == 'glob':
+                ni = Ins(i.dst, 'copy', i.ty, (('int', const[i.dst]),), i.raw); ni.attrs = dict(i.attrs); il[k] = ni
+    return n
+
+
 def thread_blocks(X):
     """merge chains of trivially connected blocks?  (not needed: emission is linear anyway)"""
     return X
@@ -521,12 +565,25 @@ def analyse_private(M, X, frozen=(), model_kinds=None):
         if v[0] == 'glob': return False
         if v[0] == 'cexpr': return False
         return False
+    def vptr_derived(r, depth=0):
+        # r = (gep of) a value loaded with type 'pointer to pointer to function' (the object's vptr)
+        if depth > 3: return False
+        for j in defs.get(r, []):
+            if j.op == 'load':
+                t = M.resolve(j.ty)
+                return isinstance(t, PtrT) and isinstance(M.resolve(t.to), PtrT) and isinstance(M.resolve(M.resolve(t.to).to), FnT)
+            if j.op == 'gep' and j.a[1][0] == 'reg': return vptr_derived(j.a[1][1], depth + 1)
+            if j.op == 'cast' and j.a[0] == 'bitcast' and j.a[2][0] == 'reg': return vptr_derived(j.a[2][1], depth + 1)
+        return False
     for b, il in X.blocks.items():
         for idx, i in enumerate(il):
             o, a = i.op, i.a
             if o == 'load':
                 p = a[0]
+                rt_ = M.resolve(i.ty)
                 if is_priv(p, b, idx): i.attrs['priv'] = True
+                elif isinstance(rt_, PtrT) and isinstance(M.resolve(rt_.to), FnT) and p[0] == 'reg' and vptr_derived(p[1]):
+                    i.attrs['priv'] = True      # vtable slot: vtables are constant objects
                 elif p[0] == 'glob' and p[1] in frozen: i.attrs['priv'] = True
                 elif p[0] == 'cexpr' and p[1] == 'bitcast' and p[3][0] == 'glob' and p[3][1] in frozen: i.attrs['priv'] = True
             elif o == 'store':
